@@ -700,6 +700,8 @@ pub struct Builder<'a> {
     pub batch_faucet_fees: u128,
     pub pool_liqs: Vec<(PoolKey, u128)>,
     pub pool_states: BTreeMap<PoolKey, melstructs::PoolState>,
+    /// pools that do not exist but whose (forged) liquidity tokens the wallet holds
+    pub forged_new: Vec<PoolKey>,
 }
 
 impl<'a> Builder<'a> {
@@ -710,7 +712,28 @@ impl<'a> Builder<'a> {
                 pools.push(*k);
             }
         }
-        Builder { w, p, avail: w.wallet.clone(), mult: snap.fee_mult, height: snap.height, pools, batch_created: vec![], batch_spent: vec![], batch_faucet_fees: 0, pool_liqs: snap.pools.iter().filter(|(k, p)| k.left() != k.right() && p.liqs > 0).map(|(k, p)| (*k, p.liqs)).collect(), pool_states: snap.pools.clone() }
+        let mut forged_new: Vec<PoolKey> = vec![];
+        // pools that do not exist (yet) but whose liquidity tokens the wallet holds (forged by a hostile faucet)
+        if p.hostile {
+            let mut ds: Vec<Denom> = w.wallet.iter().map(|c| c.cdh.coin_data.denom).collect();
+            ds.sort();
+            ds.dedup();
+            let customs: Vec<Denom> = ds.iter().copied().filter(|d| matches!(d, Denom::Custom(_))).collect();
+            if !customs.is_empty() && ds.len() <= 10 {
+                for a in ds.iter() {
+                    for b in ds.iter() {
+                        if a < b {
+                            let k = PoolKey::new(*a, *b);
+                            if !pools.contains(&k) && customs.contains(&k.liq_token_denom()) {
+                                pools.push(k);
+                                forged_new.push(k);
+                            }
+                        }
+                    }
+                }
+            }
+        }
+        Builder { w, p, avail: w.wallet.clone(), mult: snap.fee_mult, height: snap.height, pools, batch_created: vec![], batch_spent: vec![], batch_faucet_fees: 0, pool_liqs: snap.pools.iter().filter(|(k, p)| k.left() != k.right() && p.liqs > 0).map(|(k, p)| (*k, p.liqs)).collect(), pool_states: snap.pools.clone(), forged_new }
     }
 
     /// Destination address of a generic output: usually one of the harness's covenants; one in sixteen is a *twin* of
@@ -917,7 +940,23 @@ impl<'a> Builder<'a> {
         for op in tp.outs.iter() {
             let mut d = denoms[op.denom as usize % denoms.len()];
             let mut v = value_class(op.weight);
-            if self.p.hostile && op.denom % 5 == 4 && !self.pool_liqs.is_empty() {
+            if self.p.hostile && op.denom % 5 == 4 && op.weight % 7 == 6 {
+                // forged liquidity tokens of a pool that does not exist yet (a deposit may create it in this very block)
+                let mut ds: Vec<Denom> = self.avail.iter().map(|c| c.cdh.coin_data.denom).filter(|d| *d != Denom::NewCustom).collect();
+                ds.sort();
+                ds.dedup();
+                if ds.len() >= 2 {
+                    let a = ds[op.adata as usize % ds.len()];
+                    let b = ds[(op.adata as usize / 7 + 1 + op.adata as usize % ds.len()) % ds.len()];
+                    if a != b {
+                        let k = PoolKey::new(a, b);
+                        if !self.pool_states.contains_key(&k) {
+                            d = k.liq_token_denom();
+                            v = value_class(op.adata).min(MAX_COINVAL).max(1);
+                        }
+                    }
+                }
+            } else if self.p.hostile && op.denom % 5 == 4 && !self.pool_liqs.is_empty() {
                 // forged liquidity tokens (a faucet may name any denomination): a share of what the pool has issued,
                 // so that several withdrawals in one block can each fit and together exceed it
                 let (k, liqs) = self.pool_liqs[sel(op.adata as u16 * 257, self.pool_liqs.len())];
@@ -1136,7 +1175,13 @@ impl<'a> Builder<'a> {
                 return Some(b);
             }
         }
-        let k = self.choose_pool(tp, true)?;
+        let mut k = self.choose_pool(tp, true)?;
+        // someone who holds liquidity tokens of a pool that does not exist yet deposits into exactly that pool
+        if tp.amount % 2 == 0 {
+            if let Some(fk) = self.forged_new.iter().find(|fk| self.avail.iter().any(|c| c.cdh.coin_data.denom == fk.left()) && self.avail.iter().any(|c| c.cdh.coin_data.denom == fk.right())) {
+                k = *fk;
+            }
+        }
         let inputs = pick_inputs(&tp.ins[..tp.ins.len().min(1)], &mut self.avail, &[k.left(), k.right()]);
         let totals = Self::totals(&inputs);
         let (hl, hr) = (*totals.get(&k.left()).unwrap_or(&0), *totals.get(&k.right()).unwrap_or(&0));
